@@ -478,6 +478,11 @@ class RawAlgorithmsMixIn:
             raise NotImplementedError
         (D,P) = y_data.shape[:2]
 
+        # integer-valued exponents of another type (2.0, numpy.int64(2), ...)
+        # take the integer branch, which is also valid for x_0 = 0
+        if type(r) != int and numpy.isscalar(r) and numpy.isreal(r) and r == int(r):
+            r = int(r)
+
         if type(r) == int and r >= 0:
             if r == 0:
                 y_data[...] = 0.
@@ -519,6 +524,9 @@ class RawAlgorithmsMixIn:
 
         xbar_data = out
         (D,P) = y_data.shape[:2]
+
+        if type(r) != int and numpy.isscalar(r) and numpy.isreal(r) and r == int(r):
+            r = int(r)
 
         # if r == 0:
             # raise NotImplementedError('x**0 is special and has not been implemented')
